@@ -195,7 +195,7 @@ func (d *f32Decoder) FromDom(vp unsafe.Pointer, node Node, ctx *context) error {
 	}
 
 	ret, ok := node.AsF64(ctx)
-	if !ok || ret > math.MaxFloat32 || ret < -math.MaxFloat32 {
+	if !ok || math.IsInf(float64(float32(ret)), 0) {
 		return error_mismatch(node, ctx, float32Type)
 	}
 
